@@ -119,6 +119,8 @@ async def _run_schedule(case: dict) -> dict:
                     continue
             except asyncio.CancelledError:
                 state["scope"] = None
+                if state.get("stopping"):
+                    raise
                 state["cancels_seen"] += 1
                 while task.uncancel() > 0:
                     pass
@@ -183,12 +185,14 @@ async def _run_schedule(case: dict) -> dict:
             loop.call_soon(do_step_after_idle, i)
 
     loop.call_soon(do_step, 0)
-    await finished
     try:
-        await asyncio.wait_for(asyncio.shield(reader_task), timeout=1000)
-    except asyncio.TimeoutError:
-        reader_task.cancel()
-        raise Violation("reader-stuck", f"reader did not reach EOF; received {len(received)}/{len(stream)} bytes") from None
+        await finished
+        await asyncio.shield(reader_task)  # a stuck reader becomes a Deadlock of the virtual loop
+    finally:
+        state["stopping"] = True
+        if not reader_task.done():
+            reader_task.cancel()
+            await asyncio.gather(reader_task, return_exceptions=True)
     await adapter.aclose()
     return {"received": bytes(received), "stream": stream, "near": state["near"], "cancels": state["cancels"], "cancels_seen": state["cancels_seen"]}
 
@@ -310,10 +314,7 @@ async def _run_server(case: dict) -> dict:
     if rest:
         transport.feed(rest)
     transport.feed_eof()
-    try:
-        await asyncio.wait_for(asyncio.shield(ended), timeout=1000)
-    except asyncio.TimeoutError:
-        raise Violation("reader-stuck", f"server handler never finished; got {len(got)} requests") from None
+    await asyncio.shield(ended)  # a stuck handler becomes a Deadlock of the virtual loop
     await listener.aclose()
     serve_task.cancel()
     await asyncio.gather(serve_task, return_exceptions=True)
@@ -370,6 +371,8 @@ async def _tls_session(case: dict) -> dict:
                 try:
                     data = await tls.recv(sizes[i % len(sizes)])
                 except asyncio.CancelledError:
+                    if cancels.get("stopping"):
+                        raise
                     while task.uncancel() > 0:
                         pass
                     continue
@@ -381,18 +384,23 @@ async def _tls_session(case: dict) -> dict:
         rt = asyncio.create_task(reader())
         every = case["cancel_every"]
         j = 0
-        while not rt.done():
+        budget = 80
+        while not rt.done() and cancels["n"] < budget:
             for _ in range(every[j % len(every)]):
                 await asyncio.sleep(0)
+            if j % 7 == 6:
+                await asyncio.sleep(0.002)  # let virtual time pass so delayed deliveries happen between cancels
             j += 1
-            if not rt.done() and cancels["n"] < 400:
+            if not rt.done():
                 rt.cancel()
                 cancels["n"] += 1
-            if j > 200000:
-                raise HarnessError("tls reader does not finish")
         await rt
         await tls.aclose()
     finally:
+        cancels["stopping"] = True  # type: ignore[assignment]
+        if "rt" in locals() and not rt.done():
+            rt.cancel()
+            await asyncio.gather(rt, return_exceptions=True)
         wire.stop = True
         wire.kick()
         conductor.cancel()
